@@ -43,10 +43,10 @@ class State:
     def guard_cond(self, c):
         return z3.And(self.guards + [c]) if self.guards else c
 
-    def may_raise(self, cond, exc, site):
+    def may_raise(self, cond, exc, site, val=None, facts=()):
         if self.spec:
             return
-        self.pend.append((self.guard_cond(cond), exc, site))
+        self.pend.append((self.guard_cond(cond), exc, site, val, tuple(facts)))
 
     # ---- heap
     def arr(self, name, sort):
